@@ -6,6 +6,7 @@ import RbV.Model.Tsv
 
 The `MultiMap` of a record is the list of its key groups in the map's own iteration order (arbitrary); the theorems hold for every
 such list.  `csv::Writer::serialize` is abstract (`GenSrcBed.csvSerialize` = the csv writer model is its contract). -/
+set_option linter.unusedSimpArgs false
 namespace RbV.Thm.GenSrcGff
 open RbV RbV.Rs RbV.Tsv RbV.Gen.SrcGff
 open RbV.Thm.GenSrcBed (csvSerialize)
@@ -104,34 +105,37 @@ theorem write_fields {ω ρ : Type} (serialize : ω → List (List Nat) → ρ) 
   clear h1 h3 dl vd
   generalize sd = dl at *
   generalize sv = vd at *
-  have hcol : (if !(List.isEmpty r.attributes) then
-        Rs.joinStr [t] (List.map (fun (x : List Nat × List (List Nat)) =>
-          if decide (vd = 0) then Rs.joinStr [t] (List.map (fun b => x.1 ++ (Rs.charStr dl ++ b)) x.2)
-          else x.1 ++ (Rs.charStr dl ++ Rs.joinStr (Rs.charStr vd) x.2)) r.attributes)
-      else ([] : List Nat)) = writeAttrs ⟨dl, t, vd, rep⟩ r.attributes := by
-    rw [Rs.charStr_ascii dl h5, Rs.charStr_ascii vd h6]
-    have hnil : writeAttrs ⟨dl, t, vd, rep⟩ [] = [] := rfl
-    cases hr : r.attributes with
-    | nil => simp [hnil]
-    | cons kv rest =>
-      rw [← hr]
-      have : (!(List.isEmpty r.attributes)) = true := by simp [hr]
-      simp only [this, if_true, joinStr_single]
-      by_cases hv : vd = 0
-      · have hrep : rep = true := by simp [h4, hv]
-        subst hrep
-        simp only [hv, decide_true, if_true]
-        rw [← hv]
-        exact col_repeat t dl vd r.attributes hg
-      · have hrep : rep = false := by simp [h4, hv]
-        subst hrep
-        simp only [hv, decide_false, Bool.false_eq_true, if_false]
-        exact col_joined t dl vd r.attributes
-  simp only [write, Rs.csvFields, gffFields, toModel, serPhase_eq, List.append_assoc]
-  first
-    | rw [hcol]; rfl
-    | (simp only [List.flatten, List.singleton_append, List.nil_append, List.cons_append]
-       rw [hcol])
+  have e1 := Rs.charStr_ascii dl h5
+  have e2 := Rs.charStr_ascii vd h6
+  -- the proof does not depend on the shape of the text: the goal is reduced to the attribute column, the outer test is decided
+  -- by a case split on the map being empty, the closure is compared pointwise under `vd = 0` / `vd ≠ 0` (either branch order)
+  simp only [write, Rs.csvFields, gffFields, toModel, serPhase_eq, List.flatten_cons, List.flatten_nil, List.singleton_append,
+    List.append_nil, List.cons_append, List.nil_append]
+  congr 1
+  simp only [List.cons.injEq, and_true, true_and]
+  have hnil : writeAttrs ⟨dl, t, vd, rep⟩ [] = [] := rfl
+  cases hr : r.attributes with
+  | nil => simp [hnil, Rs.joinStr]
+  | cons kv rest =>
+    rw [← hr]
+    have hne : List.isEmpty r.attributes = false := by simp [hr]
+    simp only [hne, Bool.not_false, Bool.not_true, if_true, if_false, Bool.false_eq_true, joinStr_single]
+    by_cases hv : vd = 0
+    · have hrep : rep = true := by simp [h4, hv]
+      subst hrep
+      rw [← col_repeat t dl vd r.attributes hg]
+      congr 1
+      apply List.map_congr_left
+      rintro ⟨a, values⟩ _
+      simp [hv, e1, joinStr_single]
+    · have hrep : rep = false := by simp [h4, hv]
+      have hv' : ¬ 0 = vd := fun h => hv h.symm          -- the test written `0u8 == self.value_delimiter`
+      subst hrep
+      rw [← col_joined t dl vd r.attributes]
+      congr 1
+      apply List.map_congr_left
+      rintro ⟨a, values⟩ _
+      simp [hv, hv', e1, e2, joinStr_single]
 
 /-- `write` appends exactly `gffLine d` of the record (attributes in the iteration order of the map) and a line feed -/
 theorem write_eq_model (w : List Nat) (d : Dialect) (self : Writer) (r : Record) (hw : WriterFor d self)
